@@ -50,6 +50,7 @@ structure Loop where
   lastTreeReach : List Nat := []
   pagesPredicted : Nat := 0
   commitsSinceView : Nat := 0
+  protoCompared : Nat := 0
   /-- a fault was armed for the next commit (C11) -/
   faultArmed : Bool := false
   /-- after a commit that returned an I/O error: the state before it (the model holds the state after it) -/
@@ -62,8 +63,11 @@ def Loop.fail (l : Loop) (kind msg : String) : IO Loop := do
 def Loop.endHist (l : Loop) : IO Unit := do
   if l.cur != "" then
     match l.proto with
-    | some p => IO.println s!"PROTO {l.cur} commits-checked={p.checked} maxNonFree={p.maxNonFree} maxGrowth={p.maxReq} numPages={p.sys.numPages} invariant=ok"
+    | some p =>
+      IO.println s!"PROTO {l.cur} commits-checked={p.checked} maxNonFree={p.maxNonFree} maxGrowth={p.maxReq} numPages={p.sys.numPages} invariant=ok"
+      pure ()
     | none => pure ()
+    if l.protoCompared > 0 then IO.println s!"STAT proto_commits_compared={l.protoCompared}"
     if l.layerC > 0 || l.overlays > 0 || l.reenc > 0 then IO.println s!"STAT layerc_buckets_compared={l.layerC} layerc_rebalance_steps_replayed={l.layerCSteps} overlay_trees_predicted={l.overlays} pages_reencoded={l.reenc} commits_whose_freed_pages_were_predicted={l.pagesPredicted}"
     if !l.failed || l.refused then IO.println s!"RESULT {l.cur} OK ops={l.nOps}"
 
@@ -84,7 +88,7 @@ def stepLine (l : Loop) (line : String) : IO Loop := do
   if op == "hist" then
     l.endHist
     return { l with st := {}, cur := f.getD 1 "?", nOps := 0, failed := false, nHist := l.nHist + 1,
-                    proto := none, lastFile := none, commitsSinceFile := 0, protoOff := false, refused := false, pretrees := [], notes := none, layerC := 0, layerCSteps := 0, lastView := none, viewFresh := false, overlays := 0, reenc := 0, preView := none, lastTreeReach := [], pagesPredicted := 0, commitsSinceView := 0 }
+                    proto := none, lastFile := none, commitsSinceFile := 0, protoOff := false, refused := false, pretrees := [], notes := none, layerC := 0, layerCSteps := 0, lastView := none, viewFresh := false, overlays := 0, reenc := 0, preView := none, lastTreeReach := [], pagesPredicted := 0, commitsSinceView := 0, protoCompared := 0 }
   if l.failed then return l
   let r := stepOp l.st f
   let l := { l with cnt := bump l.cnt (op ++ "/" ++ outcomeClass got) }
@@ -193,8 +197,8 @@ def stepLine (l : Loop) (line : String) : IO Loop := do
           let touched := touchedKeys l.pretrees root names
           if dirty then
             let mid := rebalanced pre notes touched
-            if !(wfsb (K := Bytes) none none mid) || (uniformB mid).isNone || !(tightMB (K := Bytes) none mid) then
-              return ← l.fail "INVDIFF" s!"op=[{lhs}] bucket=[{path}] the model tree after the rebalance replay violates Sep/tightness-at-untouched-pages/uniform-depth: {fmtShape mid}"
+            if !(wfsb (K := Bytes) none none mid) || (uniformB mid).isNone || !(tightMB (K := Bytes) none mid) || !(nebT mid) then
+              return ← l.fail "INVDIFF" s!"op=[{lhs}] bucket=[{path}] the model tree after the rebalance replay violates Sep/tightness-at-untouched-pages/uniform-depth or has a childless branch (the hypothesis of `commitTree_wf`): {fmtShape mid}"
           let want := fmtShape (toEntT v.tree)
           let pred := if dirty then predictBucket l.st.pagesize pre notes touched else pre
           let got' := fmtShape pred
@@ -242,7 +246,7 @@ def stepLine (l : Loop) (line : String) : IO Loop := do
         if l.commitsSinceFile == 0 then return l
         else if l.commitsSinceFile == 1 then
           match protoCommit p fs impl with
-          | .ok p' => return { l with proto := some p', commitsSinceFile := 0 }
+          | .ok p' => return { l with proto := some p', commitsSinceFile := 0, protoCompared := l.protoCompared + 1 }
           | .error e => return ← l.fail "PROTODIFF" s!"op=[{lhs}] detail=[{e}]"
         else
           -- more than one commit since the last observation: the writer's page sets cannot be
@@ -303,7 +307,7 @@ def main (args : List String) : IO UInt32 := do
       let f := line.splitOn " "
       match f.headD "" with
       | "run" =>
-        cur := some { header := line, program := field line "program", ncommits := (field line "commits").toNat!, nwriters := (field line "writers").toNat! }
+        cur := some { header := line, program := field line "program", ncommits := (field line "commits").toNat!, nwriters := (field line "writers").toNat!, nreaders := (field line "readers").toNat! }
       | "def" =>
         if f.getD 1 "" == "init" then defs := { defs with init := defs.init ++ [(unhex (f.getD 2 ""), canonVal (f.getD 3 ""))] }
         else defs := { defs with commits := defs.commits ++ [((f.getD 2 "").toNat!, unhex (f.getD 3 ""), canonVal (f.getD 4 ""))] }
